@@ -1,0 +1,33 @@
+//go:build verif
+
+// Machine-checked contracts for the start-up wiring in package main
+// (comment-only; read by /verif/gocv). Nothing here is compiled into the gateway.
+package main
+
+// how the loaded configuration reaches the gateway, the policy callbacks and the
+// security package; checked at the point where the router is created, i.e. after
+// the last assignment to any of these and before any handler is registered
+//@ func main
+//@   assigns *
+//@   site github.com/gorilla/mux.NewRouter requires[C16] redirectPolicy: gw.RedirectFlags.Clipboard == conf.Caps.EnableClipboard && gw.RedirectFlags.Drive == conf.Caps.EnableDrive && gw.RedirectFlags.Printer == conf.Caps.EnablePrinter && gw.RedirectFlags.Port == conf.Caps.EnablePort && gw.RedirectFlags.Pnp == conf.Caps.EnablePnp && gw.RedirectFlags.DisableAll == conf.Caps.DisableRedirect && gw.RedirectFlags.EnableAll == conf.Caps.RedirectAll && gw.IdleTimeout == conf.Caps.IdleTimeout
+//@   site github.com/gorilla/mux.NewRouter requires[C17] capabilities: gw.SmartCardAuth == conf.Caps.SmartCardAuth && gw.TokenAuth == conf.Caps.TokenAuth && (gw.CheckPAACookie != nil) == conf.Caps.TokenAuth
+//@   site github.com/gorilla/mux.NewRouter requires[C02] cookieCheck: conf.Caps.TokenAuth ==> fnIs(gw.CheckPAACookie, "security.CheckPAACookie")
+//@   site github.com/gorilla/mux.NewRouter requires[C03] hostData: security.Hosts == conf.Server.Hosts && security.HostSelection == conf.Server.HostSelection
+//@   site github.com/gorilla/mux.NewRouter requires[C03] hostSet: gw.CheckHost != nil
+//@   site github.com/gorilla/mux.NewRouter requires[C03] hostPlain: !conf.Caps.TokenAuth ==> fnIs(gw.CheckHost, "security.CheckHost")
+//@   site github.com/gorilla/mux.NewRouter requires[C03] hostWrapped: conf.Caps.TokenAuth ==> fnIs(gw.CheckHost, "security.CheckSession$1")
+//@   site github.com/gorilla/mux.NewRouter requires[C03] hostInner: conf.Caps.TokenAuth ==> fnIs(fnBindCell(gw.CheckHost, 0, protocol.CheckHostFunc), "security.CheckHost")
+//@   site github.com/gorilla/mux.NewRouter requires[C04] verifyClientIp: security.VerifyClientIP == conf.Security.VerifyClientIp
+//@   site github.com/gorilla/mux.NewRouter requires[C10] buffers: gw.ReceiveBuf == conf.Server.ReceiveBuf && gw.SendBuf == conf.Server.SendBuf
+
+// the route table of the gateway endpoint (C05): the bare tunnel handler is
+// registered only when OpenID is the only mechanism; every other registration is
+// the 401 challenge handler behind the "no Authorization header" matcher, or the
+// tunnel handler wrapped by the middleware of the scheme its route matches on,
+// and only when that mechanism is enabled
+//@ define gwHandler(f) = fnIs(f, "protocol.(*Gateway).HandleGatewayProtocol$bound")
+//@ func main
+//@   site (*github.com/gorilla/mux.Route).HandlerFunc requires[C05] bareOnlyOpenID: gwHandler(arg1) ==> #enabledOpenID && !#enabledKerberos && !#enabledBasic && !#enabledNtlm
+//@   site (*github.com/gorilla/mux.Route).HandlerFunc requires[C05] guarded: !gwHandler(arg1) ==> (#routeAuthz == "" && fnIs(#routeMatcher, "web.NoAuthz") && fnIs(arg1, "web.(*AuthMux).SetAuthenticate$bound")) || (#routeAuthz == "Basic" && #enabledBasic && fnIs(arg1, "web.(*BasicAuthHandler).BasicAuth$1") && gwHandler(captured(arg1, "web.(*BasicAuthHandler).BasicAuth$1", http.HandlerFunc))) || ((#routeAuthz == "NTLM" || #routeAuthz == "Negotiate") && #enabledNtlm && fnIs(arg1, "web.(*NTLMAuthHandler).NTLMAuth$1") && gwHandler(captured(arg1, "web.(*NTLMAuthHandler).NTLMAuth$1", http.HandlerFunc)))
+//@   site github.com/bolkedebruin/gokrb5/v8/spnego.SPNEGOKRB5Authenticate requires[C05] transposed: typeIs(arg0, http.HandlerFunc) && fnIs(dyn(arg0, http.HandlerFunc), "web.TransposeSPNEGOContext$1")
+//@   site (*github.com/gorilla/mux.Route).Handler requires[C05] kerberos: #routeAuthz == "Negotiate" && #enabledKerberos && arg1 == #spnegoWrapped
